@@ -123,7 +123,26 @@ def sp_val(eng, st, o):
     return V(INT, eng.decls.opt_val(o.t)) if isinstance(o.ty, TOpt) else o
 
 
-SPEC_ENV = {"val": sp_val, "usefold": sp_usefold, "maxline": sp_maxline, "diag": sp_diag, "lenfold": sp_lenfold, "is_comment": sp_is_comment}
+def chain_fn(eng):
+    d = eng.decls
+    ob = sort_of(TOpt(BOOL), d)
+    return d.fun("Obj.implicit_chain", ["Ref"], ob)
+
+
+def sp_implicit_chain(eng, st, o):
+    """the IMPLICIT setting in force in a scope: its own if it has one, otherwise the one in force in its host"""
+    d = eng.decls
+    ob, orf = sort_of(TOpt(BOOL), d), sort_of(TOpt(TRef("Obj")), d)
+    p = d.opt_val(o.t) if isinstance(o.ty, TOpt) else o.t
+    f = chain_fn(eng)
+    if "q_" not in p.s:
+        iv = d.fun("Obj.implicit_vars", ["Ref"], ob)(p)
+        par = d.fun("Obj.parent", ["Ref"], orf)(p)
+        d.ground_axiom("implicit_chain.def", Eq(f(p), Ite(Or(d.is_some(iv), Not(d.is_some(par))), iv, f(d.opt_val(par)))))
+    return V(TOpt(BOOL), f(p))
+
+
+SPEC_ENV = {"implicit_chain": sp_implicit_chain, "val": sp_val, "usefold": sp_usefold, "maxline": sp_maxline, "diag": sp_diag, "lenfold": sp_lenfold, "is_comment": sp_is_comment}
 AXIOMS = {}
 
 
@@ -169,8 +188,11 @@ def build(reg):
         rec = diag(eng, args[2], args[1], kind, args[3], args[4])
         cur = st.env["emitted"]
         st.env["emitted"] = V(TSeq(DIAG), Concat(cur.t, Unit(rec.t)))
+        path = ("self", "ast", "parse_errors")
+        st.heap[path] = V(TSeq(DIAG), Concat(eng.heap_get(st, path).t, Unit(rec.t)))
         return NoneV()
-    m_add_error.modifies = []
+    m_add_error.modifies = ["self.ast.parse_errors"]
+    m_add_error.modifies_names = ["emitted"]
 
     def m_comment_match(eng, st, node, args, kwargs):
         d = eng.decls
@@ -183,21 +205,44 @@ def build(reg):
     reg.add(Contract(
         f"{PARSER}.check_file", prop="C07", receiver_cls="FortranFile",
         params={"obj_tree": JSON, "max_line_length": INT, "max_comment_line_length": INT, "emitted": TSeq(DIAG)},
-        fields={"self.fixed": BOOL, "self.contents_split": TSeq(STR)},
+        fields={"self.fixed": BOOL, "self.contents_split": TSeq(STR), "self.ast": TObj("FortranAST"),
+                "self.ast.parse_errors": TSeq(DIAG)},
         locals_={"COMMENT_LINE_MATCH": INT},
-        ghost={"constants": {"FRegex.FIXED_COMMENT": 1, "FRegex.FREE_COMMENT": 2, "Severity.warn": 2}},
+        ghost={"constants": {"FRegex.FIXED_COMMENT": 1, "FRegex.FREE_COMMENT": 2, "Severity.warn": 2},
+               "receiver_classes": {"fortls.parsers.internal.ast.FortranAST.check_file::scope": "Scope"}},
         requires=[("nothing_emitted_yet", "len(emitted) == 0")],
         ensures=[("exact", "implies(max_line_length > 0 or max_comment_line_length > 0, emitted == lenfold(self.contents_split, "
                            "self.fixed, max_line_length, max_comment_line_length, len(self.contents_split)))"),
-                 ("no_limit_no_warning", "implies(max_line_length <= 0 and max_comment_line_length <= 0, len(emitted) == 0)")],
+                 ("no_limit_no_warning", "implies(max_line_length <= 0 and max_comment_line_length <= 0, len(emitted) == 0)"),
+                 ("parse_result_left_as_found", "self.ast.parse_errors == old(self.ast.parse_errors)")],
         calls={"self.ast.add_error": m_add_error, "COMMENT_LINE_MATCH.match": m_comment_match},
         abstract_stmts={"errors, diags_ast = self.ast.check_file(obj_tree)": (), "diagnostics += diags_ast": (),
                         "for error in errors:\n    diagnostics.append(error.build(self))": ()},
         loops={0: LoopSpec("for (i, line) in enumerate(self.contents_split)", index="_k", invariants=[
-            ("fold", "emitted == lenfold(self.contents_split, self.fixed, max_line_length, max_comment_line_length, _k)")])},
+            ("fold", "emitted == lenfold(self.contents_split, self.fixed, max_line_length, max_comment_line_length, _k)"),
+            ("appended", "self.ast.parse_errors == old(self.ast.parse_errors) + emitted")])},
         short="FortranFile.check_file",
         note="the tail of check_file (aggregation of the scope checks) is abstracted: three statements that do not touch the "
              "line-length warnings"))
+
+    # ------------------------------------------------------------------ IMPLICIT setting in force (host association)
+    def m_parent_implicit(eng, st, node, args, kwargs):
+        recv = eng.eval(node.func.value, st, False)
+        return sp_implicit_chain(eng, st, recv)
+
+    reg.add(Contract(
+        "fortls.parsers.internal.base.FortranObj.get_implicit", prop="C07", receiver_cls="FortranObj", params={},
+        fields={"self.parent": TOpt(TRef("Obj")), "self.implicit_vars": TOpt(BOOL)},
+        ref_fields={("Obj", "implicit_vars"): TOpt(BOOL), ("Obj", "parent"): TOpt(TRef("Obj"))},
+        result=TOpt(BOOL),
+        ensures=[("own_statement_wins", "implies(self.implicit_vars is not None, result == self.implicit_vars)"),
+                 ("top_level", "implies(self.parent is None, result == self.implicit_vars)"),
+                 ("inherited_from_the_whole_host_chain",
+                  "implies(self.implicit_vars is None and self.parent is not None, result == implicit_chain(self.parent))")],
+        calls={"self.parent.get_implicit": m_parent_implicit},
+        short="FortranObj.get_implicit",
+        note="the recursive call is used through its own contract: its result is implicit_chain(parent), defined by the "
+             "ground axiom chain(p) = p.implicit_vars if it is set or p has no host, else chain(p.parent)"))
 
     # ------------------------------------------------------------------ CONTAINS / IMPLICIT placement
     reg.add(Contract(
@@ -223,7 +268,7 @@ def build(reg):
     return reg
 
 
-TARGETS = [f"{SCOPE}.check_use", f"{PARSER}.check_file", f"{SCOPE}.mark_contains",
+TARGETS = ["fortls.parsers.internal.base.FortranObj.get_implicit", f"{SCOPE}.check_use", f"{PARSER}.check_file", f"{SCOPE}.mark_contains",
            "fortls.parsers.internal.subroutine.Subroutine.check_valid_parent", "fortls.parsers.internal.type.Type.check_valid_parent",
            "fortls.parsers.internal.module.Module.check_valid_parent"]
 
@@ -322,22 +367,33 @@ def line_length_small_scope():
     from fortls.parsers.internal.parser import FortranFile
     from fortls.regex_patterns import FortranRegularExpressions as FRegex
 
-    class Ast:
+    from fortls.parsers.internal.ast import FortranAST
+
+    class Ast(FortranAST):
         def __init__(self):
-            self.got = []
+            self.got, self.parse_errors, self.file = [], [{"found": "by the parser"}], None
 
         def add_error(self, msg, sev, ln, sch, ech=None):
             self.got.append((ln, sev, sch, ech, "Comment" if msg.startswith("Comment") else "Line"))
+            super().add_error(msg, sev, ln, sch, ech)
 
         def check_file(self, obj_tree):
-            return [], []
+            return [], self.parse_errors
     lines = ["x = 1234567", "! comment 12", "", "      y = 2", "c fixed comm", "  call s()  ! trailing"]
     for fixed in (False, True):
         for mll in (-1, 0, 5, 10, 11, 12, 22, 23, 40):
             for mcl in (-1, 0, 5, 11, 12, 13):
                 f = FortranFile.__new__(FortranFile)
                 f.fixed, f.contents_split, f.ast = fixed, list(lines), Ast()
-                f.check_file({}, max_line_length=mll, max_comment_line_length=mcl)
+                first = f.check_file({}, max_line_length=mll, max_comment_line_length=mcl)
+                n_first = list(f.ast.got)
+                second = f.check_file({}, max_line_length=mll, max_comment_line_length=mcl)
+                f.ast.got = f.ast.got[len(n_first):]
+                if first != second or f.ast.parse_errors != [{"found": "by the parser"}] or f.ast.got != n_first:
+                    return {"function": "FortranFile.check_file", "fixed_form": fixed, "max_line_length": mll,
+                            "max_comment_line_length": mcl, "lines": lines, "first_call": first, "second_call": second,
+                            "parse_errors_after": f.ast.parse_errors,
+                            "reason": "checking an unchanged file twice does not give the same diagnostics"}
                 rx = FRegex.FIXED_COMMENT if fixed else FRegex.FREE_COMMENT
                 want = []
                 for i, ln in enumerate(lines):
@@ -380,7 +436,33 @@ def valid_parent_small_scope():
     return None
 
 
+def implicit_small_scope():
+    """every IMPLICIT setting (none / IMPLICIT NONE / IMPLICIT <spec>) on host chains up to four deep, real objects"""
+    import itertools
+    from fortls.parsers.internal.base import FortranObj
+    for depth in (1, 2, 3, 4):
+        for settings in itertools.product((None, False, True), repeat=depth):
+            chain = []
+            for k, v in enumerate(settings):   # settings[0] is the outermost host
+                o = FortranObj()
+                o.parent = chain[-1] if chain else None
+                o.implicit_vars = v
+                chain.append(o)
+            want = None
+            for v in reversed(settings):
+                if v is not None:
+                    want = v
+                    break
+            got = chain[-1].get_implicit()
+            if got is not want:
+                return {"function": "FortranObj.get_implicit", "implicit_vars_outermost_first": list(settings),
+                        "expected": want, "returned": got}
+    return None
+
+
 def search(func, tier, seed, obligation=""):
+    if func.endswith("get_implicit"):
+        return implicit_small_scope()
     if func.endswith("Scope.check_use"):
         return check_use_small_scope()
     if func.endswith("FortranFile.check_file"):
@@ -391,7 +473,9 @@ def search(func, tier, seed, obligation=""):
     return c07_gen.run(tier, seed)[0]
 
 
-TRUSTED = ["USE statements are immutable references in the VCs (line_number, mod_name, is-IMPORT are uninterpreted functions)",
+TRUSTED = ["in FortranAST.check_file the loop variable `scope` ranges over Scope objects (frame analysis of check_file: the "
+           "name-based call resolution would otherwise take scope.get_diagnostics() for LangServer.get_diagnostics)",
+           "USE statements are immutable references in the VCs (line_number, mod_name, is-IMPORT are uninterpreted functions)",
            "the real comment regexes are an uninterpreted predicate of (form, line)"]
 ASSUMPTIONS = ["`type(x) is Import` is modelled as the statement's is-IMPORT attribute"]
 RESIDUAL = ("silence on every valid program and the resolution-dependent detectors (declared twice, masking, type not accessible, "
